@@ -50,7 +50,10 @@ func c04One(env *Env, m *wvlib.Model, c *PairCase) {
 	}
 	wp := base + "/wounds.pww"
 	vctx := &pwr.ValidatorContext{WoundsPath: wp, Consumer: quietConsumer}
-	if err := vctx.Validate(context.Background(), nd, sigInfo); err != nil {
+	if c.Seed%3 == 0 {
+		vctx.Consumer = nil // a caller that does not care about progress: Validate supplies its own
+	}
+	if err := safeValidate(vctx, nd, sigInfo); err != nil {
 		env.R.Violate("validate-error", err.Error(), c)
 	} else if _, err := os.Stat(wp); err == nil {
 		env.R.Violate("pristine-build-wounded", "validation of the undamaged build wrote a wounds file", c)
@@ -65,6 +68,15 @@ func c04One(env *Env, m *wvlib.Model, c *PairCase) {
 		env.R.Count("size-class:"+sizeClass(len(f)), 1)
 	}
 	_ = fmt.Sprint
+}
+
+func safeValidate(vctx *pwr.ValidatorContext, dir string, sig *pwr.SignatureInfo) (err error) {
+	defer func() {
+		if r := recover(); r != nil {
+			err = fmt.Errorf("PANIC %v", r)
+		}
+	}()
+	return vctx.Validate(context.Background(), dir, sig)
 }
 
 func runC04(env *Env) {
